@@ -11,6 +11,7 @@ import (
 	"github.com/go-i2p/common/data"
 	"github.com/go-i2p/common/destination"
 	"github.com/go-i2p/common/encrypted_leaseset"
+	"github.com/go-i2p/common/keys_and_cert"
 	"github.com/go-i2p/common/lease"
 	"github.com/go-i2p/common/lease_set"
 	"github.com/go-i2p/common/lease_set2"
@@ -103,11 +104,24 @@ func runC06(c *Ctx) {
 		// declaring DSA; signed by the library with a DSA key, checked independently with crypto/dsa
 		if i < 8 {
 			dk := genDSA(r)
-			id := genIdentTypes(r, 0, 0, i%2 == 0)
+			dcr := 0
+			if i%4 == 3 { // X25519 + DSA-SHA1 under a KEY certificate: the signing key fills its 128-byte field
+				dcr = 4
+			}
+			id := genIdentTypes(r, 0, dcr, i%2 == 0 && dcr == 0)
 			id.Spk = cp(dk.pub)
 			d, _, derr := destination.ReadDestination(id.Encode())
 			dpriv, perr := cryptodsa.NewDSAPrivateKey(dk.x)
+			c.Check("constructor_accepts_admissible", derr == nil && perr == nil, "ReadDestination (DSA identity)", [][]byte{id.Encode()}, "", fmt.Sprintf("crypto %d: ReadDestination: %v, DSA private key: %v", dcr, derr, perr))
 			if derr == nil && perr == nil {
+				// the caller's destination is assembled from its parts (as key-generation code does),
+				// with exactly the padding of the identity: nothing has been through a parser yet
+				if d.KeysAndCert != nil {
+					k := &keys_and_cert.KeysAndCert{KeyCertificate: d.KeyCertificate, ReceivingPublic: d.ReceivingPublic, Padding: cp(id.Pad), SigningPublic: d.SigningPublic}
+					if d2, e := destination.NewDestination(k); e == nil && d2 != nil {
+						d = *d2
+					}
+				}
 				encB := r.Bytes(256)
 				encB[0] &= 0x7f
 				encB[255] |= 2
